@@ -111,6 +111,10 @@ pub fn check_term(s: &mut Sess, rep: &mut Report, t: RegLan, k: usize, words: &[
         return;
     }
     rep.inc("terms_checked");
+    if let Err(e) = iter_laws(|| t.class_ids()).and(iter_laws(|| t.char_ranges())) {
+        s.viol(rep, "classes", "classes:iterator", format!("class_ids() / char_ranges() of {}: {}", term_text(t), e), k);
+        return;
+    }
 
     // class_derivative on every valid id, compared with the quotient for EVERY probe character of the class
     // terms with very many classes (wide unions): the classes at both ends, those whose index is next to a power of
